@@ -146,3 +146,25 @@ def Pre (fn : String) (E : Env) : Prop :=
   else True
 
 end Jedi.Go
+
+namespace Jedi.Go
+
+instance (fn : String) (E : Env) : Decidable (Pre fn E) := by
+  unfold Pre; infer_instance
+
+/-- a small deterministic family of environments that satisfy `Valid` by construction (used only to SEARCH for a
+concrete failing input when a generated theorem no longer checks; never part of a proof). -/
+def trialEnv (t : Nat) : Env :=
+  let h (k : Key) : Nat := (mixHash (hash k.1) (mixHash (hash k.2) (hash (t * 7919 + 13)))).toNat / 1024
+  { i := fun k =>
+      let v := h k
+      if k.1 == "len" then Int.ofNat (v % 4)
+      else if k.1 == "cvar" then Int.ofNat (1 + v % 3)
+      else if k.1 == "call" then
+        (if lengthFnsList.contains (k.2.headD "") then Int.ofNat (1 + v % 3) else Int.ofNat (v % 5) - 1)
+      else if k.1 == "cap" then Int.ofNat (v % 64)
+      else Int.ofNat (v % 5) - 1
+    b := fun k => (h k / 7) % 2 == 0
+    sz := fun s => Int.ofNat (8 * (1 + (mixHash (hash s) (hash t)).toNat / 1024 % 4)) }
+
+end Jedi.Go
